@@ -1,7 +1,7 @@
 (* Dispatch of case lines to the per-property drivers. *)
 From Coq Require Import List ZArith String Ascii Bool Arith.
 From SMD Require Import Base.Sexp Model.Value Model.Schema Model.Codec
-  Driver.Common Driver.Algebra Driver.Typed Driver.Hist.
+  Driver.Common Driver.Algebra Driver.Typed Driver.Hist Driver.Serial.
 Import ListNotations.
 Open Scope string_scope.
 
@@ -47,6 +47,12 @@ Definition run_case (st : dstate) (x : sexp) : dstate * outcome :=
       | None => (st, out_bad "unknown schema")
       end
   | SList [SAtom "c20.diverged"; SAtom why] => (st, mkOut ["prop C20 " ++ why] 1 1 [])
+  | SList [SAtom "c16.roundtrip"; a; b; c; d; e] => (st, run_c16_roundtrip a b c d e)
+  | SList (SAtom "c16.perm" :: a :: b :: res) => (st, run_c16_perm a b res)
+  | SList (SAtom "c16.parse" :: a :: res) => (st, run_c16_parse a res)
+  | SList (SAtom "c16.fuzz" :: res) => (st, run_c16_fuzz res)
+  | SList [SAtom "c16.pe"; a; b; c] => (st, run_c16_pe a b c)
+  | SList [SAtom "c16.error"; SAtom why] => (st, mkOut ["prop C16 " ++ why] 1 1 [])
   | SList [SAtom "c19.include"; pats; set; res] => (st, run_c19_include pats set res)
   | SList [SAtom "c19.exclude"; ex; set; res] => (st, run_c19_exclude ex set res)
   | SList [SAtom "c19.same"; a; b; obs] => (st, run_c19_same a b obs)
